@@ -390,6 +390,7 @@ type rsource struct {
 	on        *rex
 	usingCol  string
 	lateralOn string // lateral: inner.k = outerAlias.k
+	latKind   string // join whose right side is lateral: "" = comma, "INNER", "LEFT", "LEFT OUTER" (… JOIN LATERAL (…) x ON 1 = 1)
 	n         int    // recursive cte bound
 }
 
@@ -428,6 +429,8 @@ func (s *rsource) SQL() (with string, from string) {
 		rw, rf := s.r.SQL()
 		w := strings.Join(nonEmpty(lw, rw), ", ")
 		switch {
+		case s.r.kind == "lateral" && s.latKind != "":
+			return w, lf + " " + s.latKind + " JOIN " + rf + " ON 1 = 1"
 		case s.r.kind == "lateral":
 			return w, lf + ", " + rf
 		case s.jkind == "CROSS":
@@ -515,6 +518,13 @@ func (c *c03Ctx) evalSource(s *rsource, outer *renv) *rrel {
 				}
 				for _, rr := range r.rows {
 					out.rows = append(out.rows, append(append([]RV{}, lr...), rr...))
+				}
+				if len(r.rows) == 0 && strings.HasPrefix(s.latKind, "LEFT") {
+					pad := append([]RV{}, lr...)
+					for range r.cols {
+						pad = append(pad, rvNull())
+					}
+					out.rows = append(out.rows, pad)
 				}
 			}
 			if first {
@@ -879,6 +889,7 @@ func genSourceC03(r *core.Rng, depth int, used *int) (*rsource, []aliasInfo) {
 			wh = genPredC03(r, []aliasInfo{{base, base, cols}}, 0, false)
 		}
 		j.r = &rsource{kind: "lateral", base: base, alias: rr.alias, cols: cols, where: wh, lateralOn: hasK(lal)}
+		j.latKind = []string{"", "", "INNER", "LEFT", "LEFT OUTER", "LEFT"}[r.Intn(6)]
 		all = append(append([]aliasInfo{}, lal...), aliasInfo{rr.alias, base, cols})
 	default:
 		j.jkind, j.jmode = []string{"INNER", "LEFT", "RIGHT", "FULL", "INNER"}[r.Intn(5)], "on"
